@@ -3,11 +3,15 @@
 //!    slice of the real word list whose lower-cased normalized spelling equals the query's.
 //! O: exhaustive pass over the real word list × 4 dialects (alone and embedded), capitalised and
 //!    upper-case forms, non-words, suggestions.
+//! K `sugg` (w24): the suggestion list of the lint a REAL `SpellCheck` instance reports on a flagged word vs
+//!    `Spell.lintSuggestions` (back-off, dialect filter with its `unwrap`, at most three, first letters upper-cased), fed
+//!    with what `suggest_correct_spelling` returns and the entries of the real word list the candidates name.
 use crate::c01::DIALECTS;
 use crate::common::*;
-use harper_core::linting::{Lint, LintGroup, LintKind, Linter, Suggestion};
+use harper_core::linting::{Lint, LintGroup, LintKind, Linter, SpellCheck, Suggestion};
 use harper_core::parsers::PlainEnglish;
-use harper_core::{CharStringExt, Dialect, Dictionary, Document, FstDictionary, TokenKind};
+use harper_core::spell::{FuzzyMatchResult, suggest_correct_spelling};
+use harper_core::{CharStringExt, Dialect, Dictionary, Document, FstDictionary, MutableDictionary, TokenKind, WordId, WordMetadata};
 use serde_json::{Value, json};
 use std::collections::HashMap;
 
@@ -109,6 +113,430 @@ fn k_case(sess: &mut Session, words: &Words, dict: &FstDictionary, dialect: usiz
     sess.monitor("Laws.key_lower (lower∘normalize∘lower = lower∘normalize)", lownorm(&w.to_lower()) == lownorm(w));
 }
 
+
+// ------------------------------------------------------------------------------------------------
+// K `sugg`: what SpellCheck offers for one flagged word (model: Spell.lintSuggestions)
+// ------------------------------------------------------------------------------------------------
+
+const HF: &str = "sugg: hf — every candidate suggest_correct_spelling returns is the listed spelling of an entry of the word list (hypothesis of suggestions_are_words_strong / lintSuggestions_are_words)";
+const SUGG_UNIQUE: &str = "sugg: UniqueKeys on the entries handed to the model";
+
+/// misspellings of the unit tests of spell_check.rs / spell/mod.rs, dialect words, words whose suggestions are of another dialect
+/// only, a word with more than three candidates, words with none within distance 2, non-ASCII first letters
+const SUGG_CORPUS: [&str; 44] = [
+    "markdown", "harper", "automattic", "color", "colour", "labor", "labour", "organise", "organize", "centre", "center", "punctation", "youre", "thats", "weve", "ths",
+    "semantical", "im", "hvllo", "aout", "adviced", "aknowledged", "alcaholic", "slaves", "conciousness", "teh", "recieve", "adress", "wich", "definately", "seperate",
+    "thier", "colr", "colur", "favourit", "neighbr", "xqzvyk", "qqqqqqqq", "dont", "alot", "ärger", "élan", "ǆungla", "ßtreet",
+];
+
+#[derive(Default)]
+struct SuggOut {
+    k: Option<(String, String)>,
+    fails: Vec<(String, String, Value)>,
+    counts: Vec<&'static str>,
+    monitors: Vec<(&'static str, bool)>,
+    nontrivial: bool,
+}
+
+fn words_line(ws: &[Vec<char>]) -> String {
+    let mut parts: Vec<String> = vec!["ok".into()];
+    for (i, w) in ws.iter().enumerate() {
+        if i > 0 {
+            parts.push(",".into());
+        }
+        parts.push(field(w));
+    }
+    parts.join(" ")
+}
+
+fn cap_first_form(w: &[char]) -> Option<Vec<char>> {
+    let mut v = w.to_vec();
+    let c = v.first_mut()?;
+    let up: Vec<char> = c.to_uppercase().collect();
+    if up.len() != 1 || up[0] == *c {
+        return None;
+    }
+    *c = up[0];
+    Some(v)
+}
+
+/// One flagged word `w` under dialect `dialect` and dictionary `dict` (the real curated one, or a small one).
+/// `entries_for(s)` = the listed spellings whose lower-cased normalized spelling equals that of `s`, from an index that does
+/// not go through `WordId`; `all_rounds` = hand the model the three searches even when the loop stops earlier;
+/// `real` = the dictionary is the curated one (oracles and the hf monitor apply).
+fn sugg_case<D: Dictionary + Clone>(dict: &D, entries_for: &dyn Fn(&[char]) -> Vec<Vec<char>>, decoys: &[Vec<char>], dialect: Dialect, w: &[char], all_rounds: bool, real: bool, input: Value) -> SuggOut {
+    let mut out = SuggOut::default();
+    let text: String = w.iter().collect();
+    let Ok(doc) = guarded(|| Document::new(&text, &PlainEnglish, dict)) else {
+        out.counts.push("sugg:document-panicked(C01's business)");
+        return out;
+    };
+    if !one_word_token(&doc, w.len()) {
+        out.counts.push("sugg:not-one-word-token");
+        return out;
+    }
+    // ---- the real SpellCheck, a fresh instance
+    let imp = match guarded(|| SpellCheck::new(dict.clone(), dialect).lint(&doc)) {
+        Err(e) => {
+            if real {
+                out.fails.push(("sugg-panic".into(), format!("SpellCheck panics on {:?}: {}", text, e), input.clone()));
+            }
+            out.counts.push("sugg:real-panics");
+            "panic".to_string()
+        }
+        Ok(ls) => {
+            if ls.is_empty() {
+                out.counts.push("sugg:accepted(no case)");
+                return out;
+            }
+            if ls.len() != 1 || ls[0].span.start != 0 || ls[0].span.end != w.len() || ls[0].lint_kind != LintKind::Spelling {
+                out.fails.push(("sugg-lint-shape".into(), format!("SpellCheck on the single word {:?} reports {:?}", text, ls.iter().map(|l| (l.span.start, l.span.end, l.lint_kind)).collect::<Vec<_>>()), input.clone()));
+                return out;
+            }
+            let mut sv: Vec<Vec<char>> = vec![];
+            for s in &ls[0].suggestions {
+                match s {
+                    Suggestion::ReplaceWith(v) => sv.push(v.clone()),
+                    other => out.fails.push(("sugg-not-replace".into(), format!("SpellCheck offers {:?} for {:?}", other, text), input.clone())),
+                }
+            }
+            if sv.len() > 3 {
+                out.fails.push(("sugg-more-than-three".into(), format!("SpellCheck offers {} suggestions for {:?}", sv.len(), text), input.clone()));
+            }
+            if real {
+                // the property's clause: every suggestion is a listed word of the active dialect, up to its first letter's case
+                for v in &sv {
+                    let mut low_first = v.clone();
+                    if let Some(c) = low_first.first_mut() {
+                        let l: Vec<char> = c.to_lowercase().collect();
+                        if l.len() == 1 {
+                            *c = l[0];
+                        }
+                    }
+                    let ok = [v, &low_first].iter().any(|cand| {
+                        let cand: &[char] = cand.as_slice();
+                        entries_for(cand).iter().any(|e| e.as_slice() == cand) && dict.get_word_metadata(cand).is_some_and(|m| m.dialect.is_none_or(|x| x == dialect))
+                    });
+                    if !ok {
+                        out.fails.push(("suggestion-not-a-word".into(), format!("suggestion {:?} for {:?} is not a dictionary word of the dialect", v.iter().collect::<String>(), text), input.clone()));
+                    }
+                    out.counts.push("suggestion-checked");
+                }
+            }
+            match sv.len() {
+                0 => out.counts.push("sugg:offers-0"),
+                1 => out.counts.push("sugg:offers-1"),
+                2 => out.counts.push("sugg:offers-2"),
+                _ => out.counts.push("sugg:offers-3"),
+            }
+            out.nontrivial = !sv.is_empty();
+            words_line(&sv)
+        }
+    };
+    // ---- the searches, from the public API
+    let mut rounds: Vec<Vec<Vec<char>>> = vec![];
+    let mut found = false;
+    for dist in 2u8..5 {
+        if found && !all_rounds {
+            break;
+        }
+        let r: Vec<Vec<char>> = match guarded(|| suggest_correct_spelling(w, 100, dist, dict).into_iter().map(|v| v.to_vec()).collect()) {
+            Ok(r) => r,
+            Err(_) => {
+                out.counts.push("sugg:search-panicked(no case)");
+                return out;
+            }
+        };
+        if !found && !r.is_empty() {
+            found = true;
+            out.counts.push(match dist { 2 => "sugg:found-at-distance-2", 3 => "sugg:found-at-distance-3", _ => "sugg:found-at-distance-4" });
+            if r.len() > 3 {
+                out.counts.push("sugg:more-than-three-candidates");
+            }
+            if real {
+                out.monitors.push((HF, r.iter().all(|s| entries_for(s).iter().any(|e| e == s))));
+            }
+        }
+        rounds.push(r);
+    }
+    if !found {
+        out.counts.push("sugg:nothing-within-distance-4");
+    }
+    if all_rounds {
+        out.counts.push("sugg:all-three-searches-given");
+    }
+    // ---- the entries the candidates name (+ decoys), the lower / normalize table (identity rows left out), the characters
+    let mut canons: Vec<Vec<char>> = decoys.to_vec();
+    for r in &rounds {
+        for s in r {
+            canons.extend(entries_for(s));
+        }
+    }
+    canons.sort();
+    canons.dedup();
+    {
+        let mut keys: Vec<String> = canons.iter().map(|c| lownorm(c)).collect();
+        keys.sort();
+        let n = keys.len();
+        keys.dedup();
+        out.monitors.push((SUGG_UNIQUE, keys.len() == n));
+    }
+    let mut dropped = false;
+    let ent = canons
+        .iter()
+        .map(|c| {
+            let ok = dict.get_word_metadata(c).map(|m| m.dialect.is_none_or(|d| d == dialect)).unwrap_or(false);
+            if !ok && rounds.iter().find(|r| !r.is_empty()).is_some_and(|r| r.contains(c)) {
+                dropped = true;
+            }
+            format!("{} {}", if ok { 1 } else { 0 }, field(c))
+        })
+        .collect::<Vec<_>>()
+        .join(" ; ");
+    if dropped {
+        out.counts.push("sugg:a-candidate-of-another-dialect");
+    }
+    let mut strs: Vec<Vec<char>> = vec![];
+    for x in canons.iter().chain(rounds.iter().flatten()) {
+        for y in [x.clone(), x.normalized().to_vec()] {
+            if !strs.contains(&y) {
+                strs.push(y);
+            }
+        }
+    }
+    let tab = strs
+        .iter()
+        .filter(|s| s.to_lower().as_ref() != s.as_slice() || s.normalized().as_ref() != s.as_slice())
+        .map(|s| format!("{} , {} , {}", field(s), field(&s.to_lower()), field(&s.normalized())))
+        .collect::<Vec<_>>()
+        .join(" ; ");
+    // every letter of the word (the model reads the first one only — a model that read another would be caught), the first of every candidate
+    let mut chars: Vec<char> = w.iter().copied().chain(rounds.iter().flatten().filter_map(|s| s.first().copied())).collect();
+    chars.sort();
+    chars.dedup();
+    if w.first().is_some_and(|c| c.is_uppercase()) {
+        out.counts.push("sugg:capitalised-word");
+    } else if w.iter().any(|c| c.is_uppercase()) {
+        out.counts.push("sugg:upper-case-letter-not-first");
+    }
+    let cf = chars.iter().map(|c| format!("{}/{}/{}", *c as u32, if c.is_uppercase() { "u" } else { "n" }, c.to_uppercase().next().unwrap_or(*c) as u32)).collect::<Vec<_>>().join(" ");
+    let rs = rounds.iter().map(|r| r.iter().map(|s| field(s)).collect::<Vec<_>>().join(" , ")).collect::<Vec<_>>().join(" ; ");
+    out.k = Some((format!("sugg | {} | {} | {} | {} | {}", field(w), rs, ent, tab, cf), imp));
+    out
+}
+
+/// A small dictionary for the exhaustive scope: a real `MutableDictionary` (its `get_word_metadata`, `contains_exact_word`,
+/// `fuzzy_match` are the code's) whose `fuzzy_match` additionally returns `ghost` — a word the dictionary does not contain —
+/// when the distance allowed reaches `ghost.1` (the `unwrap()` in the dialect filter of `SpellCheck` is reached only so)
+#[derive(Clone)]
+struct SmallDict {
+    inner: std::sync::Arc<MutableDictionary>,
+    ghost: Option<(Vec<char>, u8)>,
+    ghost_md: WordMetadata,
+}
+
+impl Dictionary for SmallDict {
+    fn contains_word(&self, word: &[char]) -> bool {
+        self.inner.contains_word(word)
+    }
+    fn contains_word_str(&self, word: &str) -> bool {
+        self.inner.contains_word_str(word)
+    }
+    fn contains_exact_word(&self, word: &[char]) -> bool {
+        self.inner.contains_exact_word(word)
+    }
+    fn contains_exact_word_str(&self, word: &str) -> bool {
+        self.inner.contains_exact_word_str(word)
+    }
+    fn fuzzy_match(&self, word: &[char], max_distance: u8, max_results: usize) -> Vec<FuzzyMatchResult<'_>> {
+        let mut v = self.inner.fuzzy_match(word, max_distance, max_results);
+        if let Some((g, d)) = &self.ghost {
+            if *d <= max_distance {
+                v.push(FuzzyMatchResult { word: g, edit_distance: *d, metadata: &self.ghost_md });
+            }
+        }
+        v
+    }
+    fn fuzzy_match_str(&self, word: &str, max_distance: u8, max_results: usize) -> Vec<FuzzyMatchResult<'_>> {
+        let w: Vec<char> = word.chars().collect();
+        self.fuzzy_match(&w, max_distance, max_results)
+    }
+    fn get_correct_capitalization_of(&self, word: &[char]) -> Option<&'_ [char]> {
+        self.inner.get_correct_capitalization_of(word)
+    }
+    fn get_word_metadata(&self, word: &[char]) -> Option<&WordMetadata> {
+        self.inner.get_word_metadata(word)
+    }
+    fn get_word_metadata_str(&self, word: &str) -> Option<&WordMetadata> {
+        self.inner.get_word_metadata_str(word)
+    }
+    fn words_iter(&self) -> Box<dyn Iterator<Item = &'_ [char]> + Send + '_> {
+        self.inner.words_iter()
+    }
+    fn word_count(&self) -> usize {
+        self.inner.word_count()
+    }
+    fn get_word_from_id(&self, id: &WordId) -> Option<&[char]> {
+        self.inner.get_word_from_id(id)
+    }
+}
+
+fn merge_sugg(sess: &mut Session, o: SuggOut, key: &str) {
+    for c in o.counts {
+        sess.count(c);
+    }
+    for (m, held) in o.monitors {
+        sess.monitor(m, held);
+    }
+    if o.nontrivial {
+        sess.nontrivial(key);
+    }
+    if let Some((op, imp)) = o.k {
+        sess.k(&op, &imp);
+        sess.count("sugg:k-cases");
+    }
+    for (c, m, i) in o.fails {
+        sess.fail(&c, m, i, None);
+    }
+}
+
+/// the exhaustive small scope: every dictionary over six words (each absent / of every dialect / American / British) at
+/// edit distances 1, 1, 2, 1 (capitalised entry), 3, 4 of the query × query `abcd` / `Abcd` / `aBCD` × no ghost / a ghost at distance 1 /
+/// a ghost at distance 3 × SpellCheck American / British. `part` of `parts` (quick: a quarter, by seed).
+const SMALL_POOL: [&str; 6] = ["abcx", "abcy", "abxy", "Abcq", "axyz", "wxyz"];
+const SMALL_GHOSTS: [Option<(&str, u8)>; 3] = [None, Some(("abcg", 1)), Some(("azzz", 3))];
+const SMALL_QUERIES: [&str; 3] = ["abcd", "Abcd", "aBCD"];
+
+fn sugg_small_total() -> usize {
+    4usize.pow(SMALL_POOL.len() as u32) * SMALL_QUERIES.len() * SMALL_GHOSTS.len() * 2
+}
+
+/// case `j` of the small scope
+fn sugg_small_job(j: usize) -> SuggOut {
+    let n_dicts = 4usize.pow(SMALL_POOL.len() as u32);
+    let (di, rest) = (j % n_dicts, j / n_dicts);
+    let (qi, rest) = (rest % SMALL_QUERIES.len(), rest / SMALL_QUERIES.len());
+    let (gi, li) = (rest % SMALL_GHOSTS.len(), (rest / SMALL_GHOSTS.len()) % 2);
+    let mut md = MutableDictionary::new();
+    let mut listed: Vec<Vec<char>> = vec![];
+    let mut code = di;
+    for p in SMALL_POOL.iter() {
+        let st = code % 4;
+        code /= 4;
+        if st == 0 {
+            continue;
+        }
+        let mut m = WordMetadata::default();
+        m.dialect = match st { 1 => None, 2 => Some(Dialect::American), _ => Some(Dialect::British) };
+        md.append_word(cs(p), m);
+        listed.push(cs(p));
+    }
+    let dict = SmallDict { inner: std::sync::Arc::new(md), ghost: SMALL_GHOSTS[gi].map(|(g, d)| (cs(g), d)), ghost_md: WordMetadata::default() };
+    let w = cs(SMALL_QUERIES[qi]);
+    let dialect = if li == 0 { Dialect::American } else { Dialect::British };
+    let listed2 = listed.clone();
+    let entries_for = move |s: &[char]| -> Vec<Vec<char>> { let k = lownorm(s); listed2.iter().filter(|e| lownorm(e) == k).cloned().collect() };
+    // every listed word is handed to the model (not only those the candidates name)
+    sugg_case(&dict, &entries_for, &listed, dialect, &w, true, false, json!({"kind": "sugg-small", "job": j}))
+}
+
+fn sugg_small_scope(sess: &mut Session, part: usize, parts: usize) {
+    // a mixing hash picks the part (`j % parts` would pin the state of the first pool word)
+    let mix = |j: usize| ((j as u64).wrapping_mul(0x9E37_79B9_7F4A_7C15) >> 33) as usize;
+    let jobs: Vec<usize> = (0..sugg_small_total()).filter(|j| mix(*j) % parts == part).collect();
+    let results = par_map(jobs.len(), 16, |ji| sugg_small_job(jobs[ji]));
+    for (ji, o) in results.into_iter().enumerate() {
+        sess.count("sugg:small-scope-cases");
+        merge_sugg(sess, o, &format!("sugg-small:{}", jobs[ji]));
+    }
+}
+
+/// corpus + random single-edit mutations of listed words, on the curated dictionary. One parallel pass (the thread-local
+/// Levenshtein automaton builders of fst_dictionary.rs are expensive to set up for distances 3 and 4); returns the corpus cases and
+/// the others separately, so that the K lines come corpus → small scope → random.
+fn sugg_real_streams(ctx: &Ctx, words: &Words, dialects: &[usize], rng: &mut Rng) -> (Vec<(String, SuggOut)>, Vec<(String, SuggOut)>) {
+    let thorough = ctx.tier == Tier::Thorough;
+    let mut jobs: Vec<(Vec<char>, usize, bool, Vec<usize>)> = vec![]; // word, dialect index, all three searches, decoy entries
+    // 1. corpus: every word as it is, capitalised, upper-case × dialects; all three searches for the plain form
+    for t in SUGG_CORPUS.iter() {
+        let base = cs(t);
+        let mut forms: Vec<(Vec<char>, bool)> = vec![(base.clone(), false)];
+        if let Some(c) = cap_first_form(&base) {
+            forms.push((c, false));
+        }
+        let up: Vec<char> = t.to_uppercase().chars().collect();
+        if !forms.iter().any(|f| f.0 == up) {
+            forms.push((up, true));
+        }
+        // upper-case letters but not the first one: nothing is capitalised
+        let inner: Vec<char> = base.iter().enumerate().map(|(i, c)| if i == 0 { *c } else { c.to_uppercase().next().unwrap_or(*c) }).collect();
+        if base.first().is_some_and(|c| c.is_lowercase()) && !forms.iter().any(|f| f.0 == inner) {
+            forms.push((inner, true));
+        }
+        for (fi, (f, upper)) in forms.iter().enumerate() {
+            for &d in dialects {
+                // upper-case forms find nothing within distance 2 (three searches, twice): quick tier, first dialect only
+                if *upper && !thorough && d != dialects[0] {
+                    continue;
+                }
+                jobs.push((f.clone(), d, fi == 0 && (thorough || d == dialects[0]), vec![rng.below(words.all.len())]));
+            }
+        }
+    }
+    let n_corpus = jobs.len();
+    // 2. listed words of one dialect only, looked at from another dialect (flagged, the listed spelling itself is filtered out)
+    let dict = FstDictionary::curated();
+    let tagged: Vec<usize> = (0..words.all.len()).filter(|i| dict.get_word_metadata(&words.all[*i]).is_some_and(|m| m.dialect.is_some())).collect();
+    let n_tag = if thorough { 400 } else { 60 };
+    for _ in 0..n_tag.min(tagged.len()) {
+        let w = words.all[*rng.pick(&tagged)].clone();
+        for &d in dialects {
+            let f = if rng.chance(1, 3) { cap_first_form(&w).unwrap_or(w.clone()) } else { w.clone() };
+            jobs.push((f, d, false, vec![rng.below(words.all.len())]));
+        }
+    }
+    // 3. random single edits of listed words (insert / replace / delete / swap / double a letter), a third of them capitalised,
+    //    one in ten upper-case, one in ten with one inner letter upper-cased; one in thirty-two with all three searches
+    let n_rand = if thorough { 6000 } else { 700 };
+    for _ in 0..n_rand {
+        let base = words.all[rng.below(words.all.len())].clone();
+        let mut w: Vec<char> = base.iter().copied().filter(|c| c.is_alphabetic()).collect();
+        if w.len() < 3 {
+            continue;
+        }
+        let letter = |rng: &mut Rng| (b'a' + rng.below(26) as u8) as char;
+        match rng.below(5) {
+            0 => { let at = rng.below(w.len() + 1); let c = letter(rng); w.insert(at, c); }
+            1 => { let at = rng.below(w.len()); w[at] = letter(rng); }
+            2 => { let at = rng.below(w.len()); w.remove(at); }
+            3 => { let at = rng.below(w.len() - 1); w.swap(at, at + 1); }
+            _ => { let at = rng.below(w.len()); let c = w[at]; w.insert(at, c); }
+        }
+        match rng.below(10) {
+            0..=2 => { if let Some(c) = cap_first_form(&w) { w = c; } }
+            3 => { let u: Vec<char> = w.iter().collect::<String>().to_uppercase().chars().collect(); w = u; }
+            4 => { let at = 1 + rng.below(w.len() - 1); w[at] = w[at].to_uppercase().next().unwrap_or(w[at]); }
+            _ => {}
+        }
+        let d = dialects[rng.below(dialects.len())];
+        jobs.push((w, d, rng.chance(1, 32), vec![rng.below(words.all.len()), rng.below(words.all.len())]));
+    }
+    let results = par_map(jobs.len(), 16, |i| {
+        let (w, d, all, decoys) = &jobs[i];
+        let dict = FstDictionary::curated();
+        let entries_for = |s: &[char]| -> Vec<Vec<char>> { words.by_key.get(&lownorm(s)).map(|v| v.iter().map(|i| words.all[*i].clone()).collect()).unwrap_or_default() };
+        let decoys: Vec<Vec<char>> = decoys.iter().map(|i| words.all[*i].clone()).collect();
+        sugg_case(&dict, &entries_for, &decoys, DIALECTS[*d], w, *all, true, json!({"kind": "sugg", "text": w.iter().collect::<String>(), "dialect": d}))
+    });
+    let mut corpus = vec![];
+    let mut rest = vec![];
+    for (i, o) in results.into_iter().enumerate() {
+        let key = format!("sugg:{}:{}", jobs[i].1, jobs[i].0.iter().collect::<String>());
+        if i < n_corpus { corpus.push((key, o)) } else { rest.push((key, o)) }
+    }
+    (corpus, rest)
+}
+
 pub fn run(ctx: &Ctx) {
     let mut sess = Session::new(ctx);
     let mut rng = Rng::new(ctx.seed);
@@ -153,6 +581,25 @@ pub fn run(ctx: &Ctx) {
             sess.nontrivial("replay-a");
             sess.nontrivial("replay-b");
             sess.finish("replay of one recorded merged-dictionary input", false, json!({}));
+            return;
+        }
+        if v["kind"].as_str() == Some("sugg-small") {
+            let o = sugg_small_job(v["job"].as_u64().unwrap_or(0) as usize % sugg_small_total());
+            merge_sugg(&mut sess, o, "replay-sugg-small");
+            sess.o();
+            sess.nontrivial("replay-a");
+            sess.nontrivial("replay-b");
+            sess.finish("replay of one recorded sugg small-scope case", false, json!({}));
+            return;
+        }
+        if v["kind"].as_str() == Some("sugg") {
+            let entries_for = |s: &[char]| -> Vec<Vec<char>> { words.by_key.get(&lownorm(s)).map(|v| v.iter().map(|i| words.all[*i].clone()).collect()).unwrap_or_default() };
+            let o = sugg_case(&dict, &entries_for, &[], DIALECTS[d.min(3)], &cs(&text), true, true, v.clone());
+            merge_sugg(&mut sess, o, "replay-sugg");
+            sess.o();
+            sess.nontrivial("replay-a");
+            sess.nontrivial("replay-b");
+            sess.finish("replay of one recorded sugg input", false, json!({}));
             return;
         }
         let mut lg = only_spellcheck(DIALECTS[d]);
@@ -428,8 +875,20 @@ pub fn run(ctx: &Ctx) {
             }
         }
     }
+    // ---- K `sugg`: corpus → exhaustive small scope → random single edits -----------------------------------
+    let (corpus_cases, other_cases) = sugg_real_streams(ctx, &words, &dialects, &mut rng);
+    for (key, o) in corpus_cases {
+        sess.count("sugg:corpus-cases");
+        merge_sugg(&mut sess, o, &key);
+    }
+    let parts = if ctx.tier == Tier::Thorough { 1 } else { 4 };
+    sugg_small_scope(&mut sess, (ctx.seed as usize) % parts, parts);
+    for (key, o) in other_cases {
+        sess.count("sugg:dialect-word-and-random-edit-cases");
+        merge_sugg(&mut sess, o, &key);
+    }
     sess.finish(
-        "O: every listed word of the curated dictionary (quick: every 3rd, offset by seed; thorough: all) × dialects (quick: American, British; thorough: all 4), alone and embedded in `We saw _ today.`, in its listed form and — for lower-case entries — capitalised and upper-case: must not be reported when the dialect admits it, must be reported when it is listed for another dialect only; non-words (edited / re-cased dictionary words, random letter strings; ground truth from an index keyed by to_lower∘normalized, independent of WordId) must be reported with a span covering exactly the word; every suggestion must be a word of the active dialect up to its first letter's case; the same through a MERGED dictionary (curated + a user dictionary holding case variants of curated entries and new words): every user word is accepted in its listed capitalisation. K: accept / contains_word / contains_exact_word vs the Lean model on a sample of those words, the model being given the matching slice of the real word list plus decoys. Non-trivial = distinct (dialect, word) K cases and distinct non-words.",
+        "O: every listed word of the curated dictionary (quick: every 3rd, offset by seed; thorough: all) × dialects (quick: American, British; thorough: all 4), alone and embedded in `We saw _ today.`, in its listed form and — for lower-case entries — capitalised and upper-case: must not be reported when the dialect admits it, must be reported when it is listed for another dialect only; non-words (edited / re-cased dictionary words, random letter strings; ground truth from an index keyed by to_lower∘normalized, independent of WordId) must be reported with a span covering exactly the word; every suggestion must be a word of the active dialect up to its first letter's case; the same through a MERGED dictionary (curated + a user dictionary holding case variants of curated entries and new words): every user word is accepted in its listed capitalisation. K: accept / contains_word / contains_exact_word vs the Lean model on a sample of those words, the model being given the matching slice of the real word list plus decoys. K sugg: the suggestion list of the lint a fresh REAL SpellCheck reports on a single flagged word vs Spell.lintSuggestions (the function suggestions_are_words_strong / lintSuggestions_are_words are about) given what suggest_correct_spelling(w, 100, 2|3|4) returns (the searches the back-off loop runs; all three in a share of the cases), the entries of the word list the candidates name with their dialect flag (from an index independent of WordId) plus decoys, the to_lower / normalized images and is_uppercase / to_uppercase of the first letters; streams: 44 misspellings (unit tests of spell_check.rs and spell/mod.rs, dialect words, no candidate within distance 2, non-ASCII first letters) plain / Capitalised / UPPER / all-but-the-first-letter upper-cased × dialects; EXHAUSTIVE small scope: every dictionary over six words at distances 1, 1, 2, 1 (capitalised entry), 3, 4 of the query, each absent / untagged / American / British (a real MutableDictionary) × query abcd / Abcd / aBCD (upper-case letters, but not the first) × no ghost / a candidate the dictionary does not know at distance 1 / at distance 3 (the unwrap of the dialect filter: panic) × SpellCheck American / British (quick: a quarter of the 73728, by seed); words listed for one dialect only seen from the dialects run; random single edits (insert / replace / delete / swap / double) of listed words, 30 % capitalised, 10 % upper-case, 10 % one inner letter upper-cased. O on them: one Spelling lint on exactly the word, at most three suggestions, all ReplaceWith, each a listed word of the active dialect up to its first letter's case, no panic on the curated dictionary; monitors: hf (every candidate is a listed spelling), UniqueKeys on the entries handed over. Non-trivial = distinct (dialect, word) K cases, distinct non-words and sugg cases with at least one suggestion.",
         ctx.tier == Tier::Thorough,
         json!({"exhaustive_scope": if ctx.tier == Tier::Thorough { "all dictionary words × 4 dialects × {listed, Capitalised, UPPER} × {alone, embedded}" } else { "one third of the dictionary × 2 dialects" }}),
     );
